@@ -115,6 +115,9 @@ def getSpec (tracks : List TrackInfo) (gs : List GSeg) (st dur : Int) (impl : St
         let tl := trackTimeline ti st first none found
         let want := wantVisible ti dur tl
         let pre := allowedPreroll tl
+        -- samples stored AFTER a visible one whose timestamp is nevertheless before the start (DTS not monotonic in the
+        -- file): returning them in place is the best a player can get
+        let late := ((tl.dropWhile (fun s => decide (s.dts < 0))).filter (fun s => decide (s.dts < 0))).map (·.id)
         let got := match outs.find? (·.tid == ti.tid) with | some o => o.ids | none => []
         let gotVisible := got.filter (fun i => want.any (· == i))
         let gotOther := got.filter (fun i => !want.any (· == i))
@@ -126,8 +129,8 @@ def getSpec (tracks : List TrackInfo) (gs : List GSeg) (st dur : Int) (impl : St
         if gotVisible != want && backwards tl false then
           some s!"NONMONO track {ti.tid}: samples in the window {want} but returned {got}: a later sample has a timestamp before the start and the muxer restarts its buffer"
         else if gotVisible != want then some s!"track {ti.tid}: samples in the window {want} but returned {got}"
-        else if !isSub gotOther pre then some s!"track {ti.tid}: returned {gotOther} outside the window and outside the pre-roll {pre}"
-        else if got != gotOther ++ gotVisible then some s!"track {ti.tid}: not in recorded order: {got}"
+        else if !isSub gotOther (pre ++ late) then some s!"track {ti.tid}: returned {gotOther} outside the window and outside the pre-roll {pre}"
+        else if got != (tl.map (·.id)).filter (fun i => got.any (· == i)) then some s!"track {ti.tid}: not in recorded order: {got}"
         else none
       match bad.head? with
       | none => "ok"
